@@ -42,3 +42,47 @@ Definition encloses (e : chunk) (l : list chunk) : Prop :=
 
 (** int64 thresholds. *)
 Definition int64 (n : Z) : Prop := - 2 ^ 63 <= n < 2 ^ 63.
+
+(** * Results as enclosing chunks of consecutive runs
+
+    A complete description of what a merge strategy may return: the input is
+    cut into consecutive runs, each run is replaced by its enclosing chunk,
+    a chunk joins the run before it exactly when relation [R] holds between
+    the run's enclosing chunk so far and the chunk.  For Adjacent R is
+    "begins at or before the end" ([touches]), for a Compressor "begins within
+    near compressed bytes of the end" ([within near]), for Squash always, for
+    Identity never. *)
+Definition joinp (l r : chunk) : chunk :=
+  (c_Begin l, if pos (c_End r) <? pos (c_End l) then c_End l else c_End r).
+
+Definition run := (chunk * list chunk)%type.
+Definition flatten (rs : list run) : list chunk := flat_map (fun r => fst r :: snd r) rs.
+Definition hull_of (r : run) : chunk := fold_left joinp (snd r) (fst r).
+
+Fixpoint chained (R : chunk -> chunk -> Prop) (c : chunk) (g : list chunk) : Prop :=
+  match g with
+  | [] => True
+  | x :: g' => R c x /\ chained R (joinp c x) g'
+  end.
+
+Definition merged_runs (R : chunk -> chunk -> Prop) (l out : list chunk) : Prop :=
+  exists rs : list run,
+    l = flatten rs
+    /\ out = map hull_of rs
+    /\ Forall (fun r => chained R (fst r) (snd r)) rs
+    /\ Sorted (fun r1 r2 => ~ R (hull_of r1) (fst r2)) rs.
+
+Definition touches (a b : chunk) : Prop := pos (c_Begin b) <= pos (c_End a).
+Definition within (near : Z) (a b : chunk) : Prop := o_File (c_Begin b) - o_File (c_End a) <= near.
+
+(** The strategies the library provides, and when each joins a chunk to the
+    run before it. *)
+Inductive strategy := Identity | Adjacent | Squash | Compressor (near : Z).
+
+Definition joins (s : strategy) : chunk -> chunk -> Prop :=
+  match s with
+  | Identity => fun _ _ => False
+  | Adjacent => touches
+  | Squash => fun _ _ => True
+  | Compressor near => within near
+  end.
